@@ -641,9 +641,11 @@ int main(int argc, char **argv) {
           // move the container object to another address by a raw byte copy, abandoning the source (only if it claims the trait)
           if (!relocateBytes(c)) skip = true;
         } else if (op == "at") {
+          // the index is converted to size_type by the caller (at() takes a size_type): the oracle sees the converted value
+          const size_t idx = (size_t)(ST)N(2);
           const Elem &e = v.at((ST)N(2));
           ret = std::to_string(valueOf(e));
-          if ((size_t)N(2) >= r.size() || r[(size_t)N(2)] != valueOf(e)) oracle = "MISMATCH-ret";
+          if (idx >= r.size() || r[idx] != valueOf(e)) oracle = "MISMATCH-ret";
         } else if (op == "cmp") {
           int d = (int)N(2);
           bool eq = v == *V(d), lt = v < *V(d);
